@@ -117,6 +117,13 @@ impl<T: Clone> From<Key<T>> for KeyBytes {
 
 impl From<PeerId> for Key<PeerId> {
     fn from(p: PeerId) -> Self {
+        #[cfg(litep2p_verif)]
+        if let Some(bytes) = crate::verif::key_override(&p) {
+            return Key {
+                preimage: p,
+                bytes: KeyBytes(Array::from(bytes)),
+            };
+        }
         let bytes = KeyBytes(Sha256::digest(p.to_bytes()));
         Key { preimage: p, bytes }
     }
